@@ -8,6 +8,7 @@ use crate::allocmon;
 use crate::cli::{Cmd, Exit, Stdin, WorkDir};
 use crate::ctx::{Ctx, Tier};
 use crate::ioscript::Sched;
+#[cfg(feature = "kr")]
 use crate::keyring::{EncodedPk, EncodedSk, Keyring};
 use crate::kio::*;
 use crate::refspec;
@@ -313,6 +314,12 @@ impl<'a> Child<'a> {
         }
     }
 
+    #[cfg(not(feature = "kr"))]
+    fn keys(&mut self) {
+        self.ctx.inconclusive("keyring.rs does not compile into the monitor: in-process key-string and keyring-parser surfaces of C09 skipped (the CLI lanes still offer hostile keyrings and key strings to the binary)");
+    }
+
+    #[cfg(feature = "kr")]
     fn keys(&mut self) {
         let ctx = self.ctx;
         let mut rng = Rng::fork(ctx.seed, "C09-keys");
@@ -351,7 +358,7 @@ impl<'a> Child<'a> {
             );
         }
         // names at and beyond the length limit made of multi-byte characters at every small offset
-        strings.extend(crate::c17::boundary_names());
+        strings.extend(crate::c17cli::boundary_names());
         let mut scrypt_budget = ctx.tier.pick(25, 300);
         for s in &strings {
             self.j.set("keys", s.as_bytes());
